@@ -24,6 +24,7 @@ const (
 	defaultIngressListen                  = ":8080"
 	defaultPullListen                     = ":9443"
 	defaultPullAPIMaxBatch                = 100
+	maxPullAPIMaxBatch                    = 100
 	defaultPullAPIDefaultLeaseTTL         = 30 * time.Second
 	defaultAdminListen                    = "127.0.0.1:2019"
 	defaultMetricsListen                  = "127.0.0.1:9900"
@@ -2581,6 +2582,11 @@ func compileAPI(name string, in *APIBlock, defaultListen string) (APIConfig, Val
 				if err != nil || v <= 0 {
 					res.Errors = append(res.Errors, "pull_api.max_batch must be a positive integer")
 				} else {
+					if v > maxPullAPIMaxBatch {
+						// Every queue backend hands out at most this many items per dequeue.
+						res.Warnings = append(res.Warnings, fmt.Sprintf("pull_api.max_batch %d exceeds the queue's per-dequeue limit; using %d", v, maxPullAPIMaxBatch))
+						v = maxPullAPIMaxBatch
+					}
 					out.MaxBatch = v
 				}
 			}
